@@ -633,6 +633,9 @@ pub fn verdict_of(r: &Result<(), AddVoteError>) -> (String, Option<String>) {
             let name = s.split('(').next().unwrap_or("").to_string();
             ("Slashable".into(), Some(name))
         }
+        // tolerate variants added by the code under test
+        #[allow(unreachable_patterns)]
+        Err(other) => (format!("{other:?}"), None),
     }
 }
 
